@@ -26,7 +26,8 @@ import vlib
 
 THEOREMS = ["C17_symbol_ranges_valid_partial", "C17_range_valid_meaning", "C17_ranges_come_from_ops", "C17_nonvacuous",
             "C17_tree_ranges_valid", "C17_folding_ranges_valid", "C17_parse_ranges_valid", "C17_parse_nonvacuous",
-            "C17_symbol_ranges_valid_core", "C17_ranges_come_from_ast_core", "C17_pipeline_core", "C17_pipeline_nonvacuous"]
+            "C17_symbol_ranges_valid_core", "C17_ranges_come_from_ast_core", "C17_pipeline_core", "C17_pipeline_nonvacuous",
+            "C17_pipeline_diagnostics"]
 # the tree part is stated about the grammar / kind tables regenerated from the current sources
 TRANSLATORS = ["t_tokens", "t_lextables", "t_unicode", "t_grammar", "t_grammarcert", "t_foldkinds", "t_ast", "t_symbolmap"]
 TRUSTED = [
